@@ -1,14 +1,14 @@
 #!/bin/bash
-# try_patch.sh <patch.diff> <CHECK-ID> [tier]: apply a change to /repo, run the check, undo the change. Prints the verdict.
+# try_patch.sh <patch.diff> <CHECK-ID> [tier]: run a check against /repo + a change WITHOUT touching /repo:
+# the change is applied to a scratch copy of /repo's working tree and the check is built from a scratch copy of /verif.
 set -u
 patch="$1"; id="$2"; tier="${3:-quick}"
-cd /repo || exit 2
-if [ -n "$(git status --porcelain)" ]; then echo "/repo not clean"; exit 2; fi
-git apply "$patch" || { echo "patch does not apply"; exit 2; }
-export VERIF_DIR=/tmp/verif-try-$$; mkdir -p $VERIF_DIR; cp -r /verif/harness /verif/bin /verif/overlay /verif/known_findings.jsonl $VERIF_DIR/ 2>/dev/null
-mkdir -p $VERIF_DIR/.build
-out=$(VERIF_DIR=$VERIF_DIR timeout 3600 $VERIF_DIR/bin/vcheck "$id" --tier "$tier" 2>&1); rc=$?
-git -C /repo checkout -- . 
+S=$(mktemp -d /tmp/verif-try-XXXXXX)
+trap 'rm -rf "$S"' EXIT
+rsync -a --exclude .git /repo/ "$S/repo/"
+( cd "$S/repo" && git apply "$patch" ) || { echo "patch does not apply"; exit 2; }
+export VERIF_DIR="$S/verif"; mkdir -p "$VERIF_DIR/.build"
+cp -r /verif/harness /verif/bin /verif/overlay /verif/known_findings.jsonl "$VERIF_DIR/" 2>/dev/null
+out=$(VERIF_REPO="$S/repo" timeout 3600 "$VERIF_DIR/bin/vcheck" "$id" --tier "$tier" 2>&1); rc=$?
 echo "$out" | grep -E "^VIOLATION|^KNOWN-FINDING|^$id tier|BUILD FAILED" | cut -c1-400 | head -8
 echo "exit=$rc  ($(echo "$out" | grep -c '^VIOLATION') violation lines)"
-rm -rf $VERIF_DIR
